@@ -260,6 +260,12 @@ def check_finish_notify(rep, rid, core):
                 if re.search(r'(Vec|VecDeque|slice)', norm(t.get('callee') or '')) and last_seg(norm(t.get('callee') or '')) in ('truncate', 'split_off', 'drain', 'pop', 'last', 'first', 'split_at')]
         wakes = [(g, bb) for g in fam_w for bb, t in g.calls('core::task::wake::Waker::wake', 'core::task::wake::Waker::wake_by_ref')]
         looped = bool(wakes) and all(g.in_cycle(bb) or g.kind == 'Closure' for g, bb in wakes)
+        # `try_iter().for_each(Waker::wake)`: the wake handed to for_each as a function item is a wake of every item
+        for g in fam_w:
+            for bb, t in g.calls('core::iter::traits::iterator::Iterator::for_each'):
+                a1 = t['args'][1] if len(t.get('args') or []) > 1 else {}
+                if a1.get('o') == 'const' and re.search(r'Waker::wake(_by_ref)?$', norm(a1.get('fn') or '')):
+                    looped = looped or not wakes
         rep.expect(rid, not sel and looped, 'wake_join_handles|wakes-every-registration', 'every registered waker is woken (a loop over all of them, no selection)',
                    'Task::wake_join_handles no longer wakes every registered waker (selecting calls: %s; wake inside a loop: %s): a task awaiting '
                    'a JoinHandle whose registration is skipped is never polled again, stays in the slab and keeps the command from ever being done'
